@@ -231,6 +231,7 @@ type Explorer struct {
 	stats   Stats
 	stop    bool
 	sampling bool
+	violByLabel map[string]int
 	deadline time.Time
 	OnPath  func(in *Interp, res *PathResult) // optional per-path hook (under lock)
 }
@@ -423,6 +424,9 @@ func (ex *Explorer) runPath(w *Worker, prefix []int) (in *Interp, res *PathResul
 		ufMemo: map[string]interface{}{}, ufApps: map[string][]ufApp{}, ghost: map[string]Value{},
 		blobs: map[*SymStr]*blobRec{}, tsGhost: map[*Obj]TimeV{}}
 	in.witness = ex.opts.Witness
+	if ex.opts.PermuteMaps {
+		in.permuteMode = 2
+	}
 	in.trackAcc = ex.opts.TrackAccess
 	res = &PathResult{}
 	defer func() {
@@ -488,10 +492,19 @@ func (ex *Explorer) runPath(w *Worker, prefix []int) (in *Interp, res *PathResul
 func (ex *Explorer) recordViolation(in *Interp, kind, label, msg, site string) {
 	v := &Violation{Harness: ex.harness.Name(), Kind: kind, Label: label, Msg: msg, Site: site,
 		Decision: append([]int{}, in.decisions...)}
-	v.Draws = in.modelDraws()
+	ex.mu.Lock()
+	enough := ex.violByLabel != nil && ex.violByLabel[label] >= 2
+	ex.mu.Unlock()
+	if !enough {
+		v.Draws = in.modelDraws()
+	}
 	ex.mu.Lock()
 	defer ex.mu.Unlock()
-	if len(ex.stats.Violations) < ex.maxViolations {
+	if ex.violByLabel == nil {
+		ex.violByLabel = map[string]int{}
+	}
+	ex.violByLabel[label]++
+	if ex.violByLabel[label] <= 2 && len(ex.stats.Violations) < 400 {
 		ex.stats.Violations = append(ex.stats.Violations, v)
 	}
 }
